@@ -16,6 +16,7 @@ import (
 	"github.com/mithrandie/csvq/lib/option"
 	"github.com/mithrandie/csvq/lib/parser"
 	"github.com/mithrandie/csvq/lib/value"
+	"github.com/mithrandie/csvq/lib/verifhook"
 
 	"github.com/mithrandie/go-text/color"
 	"github.com/mithrandie/go-text/fixedlen"
@@ -137,6 +138,7 @@ func (tx *Transaction) Commit(ctx context.Context, scope *ReferenceScope, expr p
 	defer tx.operationMutex.Unlock()
 
 	createdFiles, updatedFiles := tx.UncommittedViews.UncommittedFiles()
+	verifhook.At("txcommit.begin", "")
 
 	createFileInfo := make([]*FileInfo, 0, len(createdFiles))
 	updateFileInfo := make([]*FileInfo, 0, len(updatedFiles))
@@ -146,6 +148,7 @@ func (tx *Transaction) Commit(ctx context.Context, scope *ReferenceScope, expr p
 			view, _ := tx.CachedViews.Get(fileInfo.IdentifiedPath())
 
 			fp, _ := view.FileInfo.Handler.FileForUpdate()
+			verifhook.At("txcommit.encode", fileInfo.Path)
 			if err := fp.Truncate(0); err != nil {
 				return NewSystemError(err.Error())
 			}
@@ -163,6 +166,7 @@ func (tx *Transaction) Commit(ctx context.Context, scope *ReferenceScope, expr p
 				}
 			}
 
+			verifhook.At("txcommit.encoded", fileInfo.Path)
 			createFileInfo = append(createFileInfo, view.FileInfo)
 		}
 	}
@@ -172,6 +176,7 @@ func (tx *Transaction) Commit(ctx context.Context, scope *ReferenceScope, expr p
 			view, _ := tx.CachedViews.Get(fileInfo.IdentifiedPath())
 
 			fp, _ := view.FileInfo.Handler.FileForUpdate()
+			verifhook.At("txcommit.encode", fileInfo.Path)
 			if err := fp.Truncate(0); err != nil {
 				return NewSystemError(err.Error())
 			}
@@ -189,15 +194,18 @@ func (tx *Transaction) Commit(ctx context.Context, scope *ReferenceScope, expr p
 				}
 			}
 
+			verifhook.At("txcommit.encoded", fileInfo.Path)
 			updateFileInfo = append(updateFileInfo, view.FileInfo)
 		}
 	}
 
+	verifhook.At("txcommit.swap.begin", "")
 	for _, f := range createFileInfo {
 		if err := tx.FileContainer.Commit(f.Handler); err != nil {
 			return NewCommitError(expr, err.Error())
 		}
 		tx.UncommittedViews.Unset(f)
+		verifhook.At("txcommit.swapped", f.Path)
 		tx.LogNotice(fmt.Sprintf("Commit: file %q is created.", f.Path), tx.Flags.Quiet)
 	}
 	for _, f := range updateFileInfo {
@@ -205,6 +213,7 @@ func (tx *Transaction) Commit(ctx context.Context, scope *ReferenceScope, expr p
 			return NewCommitError(expr, err.Error())
 		}
 		tx.UncommittedViews.Unset(f)
+		verifhook.At("txcommit.swapped", f.Path)
 		tx.LogNotice(fmt.Sprintf("Commit: file %q is updated.", f.Path), tx.Flags.Quiet)
 	}
 
@@ -217,6 +226,7 @@ func (tx *Transaction) Commit(ctx context.Context, scope *ReferenceScope, expr p
 	if err := tx.ReleaseResources(); err != nil {
 		return NewCommitError(expr, err.Error())
 	}
+	verifhook.At("txcommit.end", "")
 	return nil
 }
 
@@ -225,6 +235,7 @@ func (tx *Transaction) Rollback(scope *ReferenceScope, expr parser.Expression) e
 	defer tx.operationMutex.Unlock()
 
 	createdFiles, updatedFiles := tx.UncommittedViews.UncommittedFiles()
+	verifhook.At("txrollback.begin", "")
 
 	if 0 < len(createdFiles) {
 		for _, fileinfo := range createdFiles {
@@ -249,6 +260,7 @@ func (tx *Transaction) Rollback(scope *ReferenceScope, expr parser.Expression) e
 	if err := tx.ReleaseResources(); err != nil {
 		return NewRollbackError(expr, err.Error())
 	}
+	verifhook.At("txrollback.end", "")
 	return nil
 }
 
